@@ -22,8 +22,11 @@ Fixpoint ins_sorted (x : nat) (l : list nat) : list nat :=
   end.
 Definition sort_unique (l : list nat) : list nat := fold_right ins_sorted [] l.     (* np.unique / setdiff1d order *)
 
-(* :392-405  setdiff1d(pq, pq[aux bus out of service]) : sorted, unique, and a bus shared with an out-of-service xward drops out *)
-Definition xward_pq_buses (xws : list xwbr) : list nat :=
+(* _get_xward_pq_buses after "fix: distributed slack assigns the xward slack weights to the bus of their own xward":
+   the PQ buses of the in-service xwards in table order, duplicates kept *)
+Definition xward_pq_buses (xws : list xwbr) : list nat := map x_pq (filter x_on xws).
+(* before: setdiff1d(pq, pq[aux bus out of service]) : sorted, unique, and a bus shared with an out-of-service xward drops out *)
+Definition xward_pq_buses_old (xws : list xwbr) : list nat :=
   let oos := map x_pq (filter (fun x => negb (x_on x)) xws) in
   sort_unique (filter (fun b => negb (memn b oos)) (map x_pq xws)).
 
@@ -54,9 +57,10 @@ Fixpoint norm_loop (buses : list nat) (ws : list Q) (subs : list (list nat)) (bw
 Definition bw_lookup (bw : list (nat * Q)) (k : nat) : Q :=
   match rev (filter (fun p => Nat.eqb (fst p) k) bw) with p :: _ => snd p | [] => 0 end.
 
-Definition normalise (gens : list wsrc) (xws : list xwbr) (subs : list (list nat)) (nb : nat) : nres :=
+Definition normalise_with (xpqf : list xwbr -> list nat)
+  (gens : list wsrc) (xws : list xwbr) (subs : list (list nat)) (nb : nat) : nres :=
   let gb := map w_bus (filter (fun g => negb (w_xw g)) gens) in
-  let xpq := xward_pq_buses xws in
+  let xpq := xpqf xws in
   if existsb (fun b => memn b xpq) gb then NErr 1
   else
     let buses := gb ++ xpq in
@@ -69,13 +73,17 @@ Definition normalise (gens : list wsrc) (xws : list xwbr) (subs : list (list nat
              if qleb (Qabs (qsub tot 1)) CLOSE1 then NOk bw else NErr 1
          end.
 
-(* guard: the weights of the xward aux gens (table order) are paired with the bus of their own xward *)
+Definition normalise := normalise_with xward_pq_buses.
+Definition normalise_old := normalise_with xward_pq_buses_old.
+
+(* guard of the OLD pairing: the weights of the xward aux gens (table order) met the bus of their own xward *)
 Definition G10w (xws : list xwbr) : bool :=
   forallb x_on xws &&
   (fix eqb (a b : list nat) := match a, b with [] , [] => true | x :: a', y :: b' => Nat.eqb x y && eqb a' b' | _, _ => false end)
-    (xward_pq_buses xws) (map x_pq xws).
+    (xward_pq_buses_old xws) (map x_pq xws).
 
-(* ---------- xward results under distributed slack (results_bus.py:302-326) *)
+(* ---------- xward results under distributed slack: the rule BEFORE the repair (results_bus.py:302-326 at the pinned commit),
+   kept as xward_p_old; the repaired rule follows below *)
 Record xwrow := mkXw { xr_pbus : nat; xr_k : nat; xr_ps : Q; xr_w : Q; xr_ins : bool; xr_on : bool }.
 Record nodeel := mkNe { ne_pbus : nat; ne_p : Q; ne_ins : bool }.      (* sgen.p_mw / load.p_mw / ward.ps_mw / storage.p_mw, raw *)
 
@@ -115,11 +123,26 @@ Fixpoint xw_loop (pd_after : nat -> Q) (others : list nodeel) (xws : list xwrow)
                  end
   end.
 (* write_pq_results_to_element: ps*in_service, then (only if some in-service xward has a non-zero weight) the loop *)
-Definition xward_p (pd_after : nat -> Q) (others : list nodeel) (xws : list xwrow) : xres :=
+Definition xward_p_old (pd_after : nat -> Q) (others : list nodeel) (xws : list xwrow) : xres :=
   let col0 := map (fun x => Some (qmul (xr_ps x) (b2q (xr_on x)))) xws in
   if existsb (fun x => xr_on x && negb (qeqb (xr_w x) 0)) xws then xw_loop pd_after others xws xws col0 else XOk col0.
 
-(* guard of the xward share: a single xward row, in service, positive weight, and the raw p_mw/ps_mw of the in-service
+(* repaired rule ("fix: distributed slack results of xwards: every xward gets its own weighted share of its own bus"):
+   p_variable[k] = bus PD after pfsoln - demand the power flow used (static PD incl. ZIP voltage dependency, C01.Model.Sload);
+   an in-service xward with weight w gets  p_variable[k] * w / (sum of the weights of the in-service xwards of ppc bus k) *)
+Definition xw_weight (x : xwrow) : Q := qmul (xr_w x) (b2q (xr_on x)).
+Definition xw_bus_weight (xws : list xwrow) (k : nat) : Q := sumf xw_weight (filter (fun y => Nat.eqb (xr_k y) k) xws).
+Definition xward_row (n : net) (vs : list Q) (pd_after : nat -> Q) (xws : list xwrow) (x : xwrow) : Q :=
+  let k := xr_k x in
+  let w := xw_weight x in
+  let wb := xw_bus_weight xws k in
+  qadd (qmul (xr_ps x) (b2q (xr_on x)))
+       (if qeqb w 0 then 0
+        else qdiv (qmul (qsub (pd_after k) (re (Sload n k (vof vs k)))) w) (if qeqb wb 0 then 1 else wb)).
+Definition xward_p (n : net) (vs : list Q) (pd_after : nat -> Q) (xws : list xwrow) : list Q :=
+  map (xward_row n vs pd_after xws) xws.
+
+(* guard of the OLD xward share: a single xward row, in service, positive weight, and the raw p_mw/ps_mw of the in-service
    elements of its pandapower bus is the static ppc demand of its ppc bus *)
 Definition G10x (n : net) (others : list nodeel) (xws : list xwrow) : bool :=
   match xws with
@@ -132,7 +155,7 @@ Definition G10x (n : net) (others : list nodeel) (xws : list xwrow) : bool :=
 Definition ds_mism (n : net) (k : nat) (v : Q) (sinj : C) (wb s : Q) : Q :=
   qadd (mism_p n k v sinj) (qmul (qmul wb s) (base n)).
 (* deviation of a gen row from its active power setpoint *)
-Definition dev (n : net) (ref : list nat) (g : gen) (sinj : C) : Q := qsub (pg_after n ref g sinj) (g_pg g).
+Definition dev (n : net) (ref : list nat) (g : gen) (v : Q) (sinj : C) : Q := qsub (pg_after n ref g v sinj) (g_pg g).
 
 (* ---------- run wrappers *)
 Definition onres (r : nres) (nb : nat) : out :=
@@ -142,11 +165,8 @@ Definition onres (r : nres) (nb : nat) : out :=
   end.
 Definition run_normalise (gens : list wsrc) (xws : list xwbr) (subs : list (list nat)) (nb : nat) : out :=
   OL [onres (normalise gens xws subs nb) nb; OB (G10w xws)].
-Definition run_xward (pd_after : list Q) (others : list nodeel) (xws : list xwrow) : out :=
-  match xward_p (fun k => nth k pd_after 0) others xws with
-  | XErr => OErr "ValueError"
-  | XOk col => OL (map ooq col)
-  end.
+Definition run_xward (n : net) (vs : list Q) (pd_after : list Q) (xws : list xwrow) : out :=
+  OL (map oq (xward_p n vs (fun k => nth k pd_after 0) xws)).
 
 (* ---------- widening of the reference sets (run_newton_raphson_pf.py:77-90) and the gen / bus-PD stage *)
 Definition widen_ref (ref : list nat) (bw : list Q) : list nat :=
@@ -156,8 +176,8 @@ Definition widen_gens (n : net) : net :=
         (map (fun g => mkGen (g_pbus g) (g_bus g) (g_pg g) (g_qmin g) (g_qmax g) (g_w g) (g_on g)
                              (g_ref g || negb (qeqb (g_w g) 0))) (gens n))
         (vdl n) (base n) (bus_order n).
-Definition run_ds_gens (n : net) (ref : list nat) (bw : list Q) (ss : list C) (nb : nat) : out :=
+Definition run_ds_gens (n : net) (ref : list nat) (bw : list Q) (vs : list Q) (ss : list C) (nb : nat) : out :=
   let n' := widen_gens n in let ref' := widen_ref ref bw in
-  OL [ OL (map (fun g => oq (pg_after n' ref' g (sof ss (g_bus g)))) (gens n'));
+  OL [ OL (map (fun g => oq (pg_after n' ref' g (vof vs (g_bus g)) (sof ss (g_bus g)))) (gens n'));
        OL (map (fun k => oq (PD_after n' ref' k (sof ss k))) (seq 0 nb));
        olist onat ref' ].
